@@ -1,5 +1,5 @@
 (* C03 — grammar analysis is complete and independent of rule order. *)
-From Coq Require Import List String NArith Bool Permutation.
+From Coq Require Import List String NArith Bool Permutation Arith.
 From Pegen Require Import Base.StrUtil Grammar.Ast Analysis.Visitor Analysis.Nullable Proofs.VisitorSim
   Proofs.NullableProofs.
 Import ListNotations.
@@ -52,3 +52,63 @@ Example C03_demo : monotone_tbl tbl = true /\ wf_tbl tbl itf = true /\
   lr_of [r_opt; r_a] = Some (["opt"], ["a"]) /\ lr_of [r_a; r_opt] = Some (["opt"], ["a"]).
 Proof. vm_compute. repeat split; reflexivity. Qed.
 Print Assumptions C03_demo.
+
+(* "No accepted well-formed grammar makes its parser recurse without bound", at the level of the reference
+   semantics (Sem/Peg.v) and for ALL grammars, token lists and interpretations of actions.  Given
+   - a set of nullable flags closed under the nullability equations of the extracted table (the set the
+     analysis computes is the least such set, theorem above),
+   - a rank of the rules that strictly decreases along every INITIAL INVOCATION -- a reference to a rule in a
+     position that can be reached without consuming a token: after items that can match nothing, inside
+     groups, optionals, repetitions, forced items, a gather's element (and its separator when the element can
+     match nothing) and inside LOOKAHEAD OPERANDS -- i.e. no rule reaches itself at the same position,
+   - every name is a rule or a token kind and no repetition repeats something that can match nothing,
+   every rule has a result (a value and an end position, a failure, or an error) at every position: the
+   big-step relation has no infinite derivation.  The three conditions are a decidable checker
+   ([term_verdict] = 0) evaluated by the C03 check on every explored grammar that the real analysis finds free of
+   left recursion, with the REAL nullable flags and a rank computed from the REAL first graph: an initial
+   invocation the real graph misses makes the rank check fail (verdict 2).  Proving this is how the missing
+   lookahead-operand edges of grammar.py were found (`a: &a 'x' | 'y'` recursed without bound). *)
+From Pegen Require Import Base.Values Runtime.Tokenizer Sem.Peg Proofs.NullSem Proofs.PegTotal.
+Theorem C03_no_cycle_at_one_position_means_every_parse_terminates :
+  forall methods K rs keywords soft_keywords nullable_rules ranks,
+  nul_tbl_ok methods = true ->
+  term_verdict methods K rs keywords soft_keywords nullable_rules ranks = 0 ->
+  forall toks aeval item_name forced_msg n r p, find_rule rs n = Some r ->
+  exists res, peg_item K rs toks keywords soft_keywords aeval item_name forced_msg (NameLeaf n) p res.
+Proof. exact checked_total. Qed.
+Print Assumptions C03_no_cycle_at_one_position_means_every_parse_terminates.
+
+(* Non-vacuity: a grammar with a lookahead over a rule, a nullable prefix, a loop and a gather meets the conditions;
+   a rule that looks ahead for itself meets them for NO rank. *)
+Definition K03 : kinds := {| kNAME := 1; kNUMBER := 2; kSTRING := 3; kOP := 55; kNEWLINE := 4; kINDENT := 5; kDEDENT := 6;
+  kENDMARKER := 0; kTYPE_COMMENT := 59; kFSTRING_START := 61; kFSTRING_MIDDLE := 62; kFSTRING_END := 63; kASYNC := 57; kAWAIT := 56 |}.
+Definition ni (k : N) (i : item) := NItem k None None i.
+Definition mkr (n : string) (id : N) (alts : list alt) := {| rname := n; rtype := None; rmemo := false; rrhs := Rhs id alts |}.
+(* start: a NEWLINE ;  a: &b 'x' | opt ('w' a)* ','.b+ ;  b: 'q'? NAME ;  opt: 'o'? *)
+Definition g_term : list rule :=
+  [mkr "start" 1 [Alt [ni 2 (NameLeaf "a"); ni 3 (NameLeaf "NEWLINE")] None];
+   mkr "a" 4 [Alt [ni 5 (PosLook (NameLeaf "b")); ni 6 (StringLeaf "'x'")] None;
+              Alt [ni 7 (NameLeaf "opt");
+                   ni 8 (Repeat0 9 (Group (Rhs 10 [Alt [ni 11 (StringLeaf "'w'"); ni 12 (NameLeaf "a")] None])));
+                   ni 13 (Gather 14 (StringLeaf "','") (NameLeaf "b"))] None];
+   mkr "b" 15 [Alt [ni 16 (Opt (StringLeaf "'q'")); ni 17 (NameLeaf "NAME")] None];
+   mkr "opt" 18 [Alt [ni 19 (Opt (StringLeaf "'o'"))] None]].
+Definition g_self : list rule :=
+  [mkr "a" 1 [Alt [ni 2 (PosLook (NameLeaf "a")); ni 3 (StringLeaf "'x'")] None; Alt [ni 4 (StringLeaf "'y'")] None]].
+Example C03_termination_example :
+  nul_tbl_ok tbl = true /\
+  term_verdict tbl K03 g_term [] [] ["opt"] [("start", 3); ("a", 2); ("b", 1); ("opt", 0)] = 0 /\
+  (* forgetting that `a` starts with `b` (through the lookahead) or with `opt` is noticed *)
+  term_verdict tbl K03 g_term [] [] ["opt"] [("start", 3); ("a", 1); ("b", 1); ("opt", 0)] = 2 /\
+  term_verdict tbl K03 g_term [] [] [] [("start", 3); ("a", 2); ("b", 1); ("opt", 0)] = 1 /\
+  (forall ranks, term_verdict tbl K03 g_self [] [] [] ranks = 2).
+Proof.
+  split; [vm_compute; reflexivity|]. split; [vm_compute; reflexivity|]. split; [vm_compute; reflexivity|].
+  split; [vm_compute; reflexivity|].
+  intros ranks. unfold term_verdict.
+  replace (prefixed_b tbl g_self []) with true by (vm_compute; reflexivity).
+  replace (ranks_b tbl g_self [] ranks) with false; [reflexivity|].
+  unfold ranks_b. cbn. change (match rank_of ranks "a" with 0 => false | S m' => Nat.leb (rank_of ranks "a") m' end) with (Nat.ltb (rank_of ranks "a") (rank_of ranks "a")).
+  rewrite Nat.ltb_irrefl. reflexivity.
+Qed.
+Print Assumptions C03_termination_example.
